@@ -140,6 +140,25 @@ def second_pid_scenario(ctx, trace, run_id, second_event="started"):
         for c in cls:
             c.close()
         t.stop()
+    # The refusal's error frame is a recorded finding (KF-C17-refusal-error-lost), and a rejected run is
+    # validated no further.  So that the finding does not hide what follows it - the refused connection's
+    # clean-up, observed by B's scrape - the same observations are validated a second time as a run of
+    # their own in which exactly that known deviation (connection closed by the tracker, error frame
+    # missing) is replaced by what the specification expects.  Nothing else is touched.
+    start = max(i for i, e in enumerate(trace) if e.get("ev") == "reset")
+    run = json.loads(json.dumps(trace[start:]))
+    repaired = 0
+    for e in run:
+        if e.get("ev") == "announce" and e.get("conn_closed_by_tracker") and not e.get("refused") \
+                and not [f for f in e["out"] if f["to"][0] == e["c"][0]]:
+            e["refused"] = True
+            e["out"] = [f for f in e["out"] if f["to"][0] != e["c"][0]] + [{"kind": "error", "to": e["c"], "h": e["h"]}]
+            e["repaired_known_deviation"] = "KF-C17-refusal-error-lost"
+            repaired += 1
+    if repaired:
+        run[0]["run"] = run_id + 1000
+        run[0]["scenario"] = "second_pid_cleanup"
+        trace.extend(run)
 
 
 def idle_close_scenario(ctx, trace, run_id):
